@@ -22,6 +22,7 @@ from vf.lattice import lattice, Plain, PlainSub
 from vf import reference as rf
 from vf.reference import plainify  # noqa: F401  (re-exported for other monitors)
 from vf.util import same, short
+from vf.monitors import _c01_more as more
 
 META = {
     "level": "exploration",
@@ -30,15 +31,38 @@ META = {
              "(Tuple/Union/Either/List/Dict/Set of atomic specs, depth <= 2 quick / 3 thorough), values = "
              "the ~300-value lattice of vf/lattice.py, routes = attribute assignment, constructor "
              "keyword, trait_set. distinct_nontrivial = distinct (spec kind, value class, outcome "
-             "class) triples."),
+             "class) triples. Stratum 'arrays' (vf/monitors/_c01_more.py): the Array/CArray/ArrayOrNone "
+             "option grid (14 dtypes incl. declared non-native and structured x 5 casting rules x 8 shape "
+             "rules, direct and as Tuple/List/Union/Either/Dict member; every dtype x casting pair in "
+             "every run) x the ndarray value family (non-native byte order obtained by astype / "
+             "byteswap+view / frombuffer, strided-transposed-broadcast-read-only views, zero-size, 0-d, "
+             "ndarray subclasses, structured/string/datetime dtypes, ragged and nested sequences); the "
+             "oracle is a domain predicate on the READABLE array (dtype identical to the declared one "
+             "byte order included, shape rule, content = the documented astype conversion). Stratum "
+             "'deferred': assignment THROUGH DelegatesTo / PrototypedFrom / Delegate(modify or not) x "
+             "naming (same, renamed, prefix*) x the trait governing the delegated-to attribute on that "
+             "delegate object (class trait, add_trait instance trait shadowing it, instance-only trait, "
+             "subclass override, listener-made clone, delegate swapped in after a read, shadow added "
+             "and removed, two-hop chains same-kind and mixed) x 28 ordered pairs of differing domains; "
+             "values = those on which the two domains disagree plus a sample of the rest."),
     "phases": [{"name": "main", "flavour": "P", "shards": 16}],
     "gates": {
         "quick": {"evaluations": 80000, "accepted": 10000, "rejected": 30000, "converted": 1500,
                   "passthrough_seen": 50, "no_effect_checked": 30000, "families": 12,
-                  "family_judgements": 10000},
+                  "family_judgements": 10000,
+                  "array_specs": 44, "array_judgements": 2000, "array_nonnative_accepted": 250,
+                  "array_nonnative_rejected": 700, "array_view_accepted": 100,
+                  "array_degenerate_accepted": 25,
+                  "deferred_specs": 60, "deferred_judgements": 1700, "deferred_accepted": 1800,
+                  "deferred_rejected": 3000, "deferred_discriminating_nonclass": 500},
         "thorough": {"evaluations": 1000000, "accepted": 100000, "rejected": 400000,
                      "converted": 15000, "passthrough_seen": 500, "no_effect_checked": 400000,
-                     "families": 12, "family_judgements": 10000},
+                     "families": 12, "family_judgements": 10000,
+                     "array_specs": 580, "array_judgements": 140000, "array_nonnative_accepted": 15000,
+                     "array_nonnative_rejected": 75000, "array_view_accepted": 5000,
+                     "array_degenerate_accepted": 1300,
+                     "deferred_specs": 700, "deferred_judgements": 160000, "deferred_accepted": 90000,
+                     "deferred_rejected": 400000, "deferred_discriminating_nonclass": 20000},
     },
     "assumptions": [
         "vf/reference.py (about 300 lines of per-type predicates written from the docstrings and "
@@ -46,6 +70,11 @@ META = {
         "for compound traits any accepting member's conversion is an acceptable stored value "
         "(which member wins is C03's question)",
         "File/Directory exists=True, UUID, WeakRef are excluded (domain depends on filesystem/GC)",
+        "a value assigned through a deferring trait is judged by the trait that governs the "
+        "delegated-to attribute on that delegate OBJECT (an instance trait shadows the class trait, as "
+        "for a direct assignment); its TraitError may name either the deferring or the delegated-to "
+        "attribute",
+        "an Array's declared dtype includes its byte order (numpy dtype equality)",
     ],
 }
 
@@ -530,3 +559,9 @@ def run(ctx):
                             m[3] += 1
             finally:
                 ctx.end()
+    # ---- stratum "arrays": the ndarray value family (byte orders, views, zero-size, subclasses,
+    # structured dtypes, sequences) against the Array/CArray/ArrayOrNone option grid
+    more.run_arrays(ctx, judge, 0)
+    # ---- stratum "deferred": assignment through DelegatesTo / PrototypedFrom / Delegate, judged by
+    # the trait governing the delegated-to attribute on that delegate object
+    more.run_deferred(ctx, 0)
